@@ -19,14 +19,14 @@ TECHNIQUE = ("Coq proof (conflict list of the merge model = the declarative conf
 LEVEL_TEXT = ("Proof (F/M): for every ancestor/left/right table the conflict list of the merge model is exactly the declarative conflict entries "
               "(base, ours, theirs) — unconditionally for equal schemas, in C29's schema class otherwise — and for every table and conflict list "
               "resolving with ours/theirs leaves every conflicted key with exactly that version (deleted when absent), every other key untouched, "
-              "and no conflicts (resolve_spec, resolve_idempotent); the secondary-index maintenance of resolve --theirs keeps the index mirroring the table (resolve_preserves_mirror); the oracle accepts the model on every input (oracle_on_model; the check evaluates the generalisation oracle_p / model_obs_p with prior artifacts, per table of a multi-table resolve; at prior = [] it is proved equal to the single-merge check — model_obs_p_nil, oracle_p_nil, check_case_p_nil, oracle_on_model_p_nil; oracle_on_model_p for a non-empty, well-formed prior is not proved). Tied to the code by conflicted merges of generated divergent histories, "
+              "and no conflicts (resolve_spec, resolve_idempotent); the secondary-index maintenance of resolve --theirs keeps the index mirroring the table (resolve_preserves_mirror); the oracle accepts the model on every input (oracle_on_model; the check evaluates the generalisation oracle_p / model_obs_p with prior artifacts, per table of a multi-table resolve; at prior = [] it is proved equal to the single-merge check — model_obs_p_nil, oracle_p_nil, check_case_p_nil, oracle_on_model_p_nil; for every prior satisfying the decidable prior_ok (distinct keys, keys untouched by the present merge's right side, 'ours' agreeing with our row — what the generator guarantees) oracle_on_model_p proves the oracle accepts the model, with a non-empty example). Tied to the code by conflicted merges of generated divergent histories, "
               "dolt_conflicts_t and dolt_conflicts_resolve on two copies of each merge.")
 LEVEL_NOTE = ("Trusted: Coq kernel, Go harness (SQL script runner), Python glue. Modelled, not verified: SQL DML (input tables are read back), the artifact "
               "map encoding, the prolly encoding of secondary indexes (the index is modelled by its entry set; resolve_preserves_mirror proves the maintenance keeps it mirroring the table, and in the quarter of the cases with an index every value of the indexed column is looked up after both resolutions and compared), "
               "schema-changing merges (dolt refuses to resolve when the table schema differs from the chosen side's: ErrConfSchIncompatible; not generated).")
 THEOREMS = ["resolve_spec", "resolve_theirs_spec", "resolve_idempotent", "conflicts_exact_spec", "conflicts_exact_same_schema",
             "resolve_preserves_mirror", "conflict_keys_distinct", "mirror_build", "oracle_on_model",
-            "model_obs_p_nil", "oracle_p_nil", "check_case_p_nil", "oracle_on_model_p_nil"]
+            "model_obs_p_nil", "oracle_p_nil", "check_case_p_nil", "oracle_on_model_p_nil", "oracle_on_model_p", "prior_ok_nonempty"]
 RULE = ("C29's generator without schema changes: 1-2 int key columns, 2-4 nullable int/varchar columns, 0-12 base rows, two branches of 0-7 "
         "inserts/updates/deletes biased to a hot set of keys and cells, optional secondary index; conflicted merge, then resolve --ours and --theirs on "
         "separate copies; in 60% of the cases a second table u with its own history and ONE resolve call naming both tables (or '.'); in 25% "
